@@ -193,12 +193,13 @@ def executeWithRetry (cfg : Cfg) : M Outcome := do
     else if o.stop = some .aborted then do recordCancel cfg; pure o
     else do recordFailure cfg (o.lastClass.getD .unknown); pure o
 
-/-- the `except` ladder of `_execute_without_retry` -/
-def noRetryLadder (cfg : Cfg) (e : Exn) : M Outcome :=
+/-- the `except` ladder of `_execute_without_retry`; `invoked` is the local flag of the same name
+    (set just before `func()` is called) -/
+def noRetryLadder (cfg : Cfg) (invoked : Bool) (e : Exn) : M Outcome :=
   if e.isAbort then do
     recordCancel cfg
     noRetryEndHook cfg (some e) none .aborted (some .aborted) none
-    policyOutcome false none (some .aborted) 0 none none none
+    policyOutcome false none (some .aborted) (if invoked then 1 else 0) none none none
   else if cfg.isAsync && e = .cancelled then do recordCancel cfg; throw e
   else if e.isKiSe then do recordCancel cfg; throw e
   else if e.isException then do
@@ -208,16 +209,23 @@ def noRetryLadder (cfg : Cfg) (e : Exn) : M Outcome :=
     policyOutcome false none none 1 (some k) (some e.ref) (some .exception)
   else throw e
 
-/-- `_execute_without_retry` -/
+/-- `_execute_without_retry`.  The single Python `try` whose abort arm consults the local flag
+    `invoked` is written as two consecutive regions — the start hook, then `func()` — which is the same
+    control flow without the flag. -/
 def executeWithoutRetry (cfg : Cfg) : M Outcome := do
-  let r ← tryCatch (do noRetryStartHook cfg; let v ← invokeOp 1; pure (Sum.inl v))
-            (fun e => do let o ← noRetryLadder cfg e; pure (Sum.inr o))
-  match r with
-  | .inr o => pure o
-  | .inl v => do
-    recordSuccess cfg
-    noRetryEndHook cfg none (some v) .success none none
-    policyOutcome true (some v) none 1 none none none
+  let r0 ← tryCatch (do noRetryStartHook cfg; pure none)
+             (fun e => do let o ← noRetryLadder cfg false e; pure (some o))
+  match r0 with
+  | some o => pure o
+  | none => do
+    let r ← tryCatch (do let v ← invokeOp 1; pure (Sum.inl v))
+              (fun e => do let o ← noRetryLadder cfg true e; pure (Sum.inr o))
+    match r with
+    | .inr o => pure o
+    | .inl v => do
+      recordSuccess cfg
+      noRetryEndHook cfg none (some v) .success none none
+      policyOutcome true (some v) none 1 none none none
 
 def executeAdmitted2 (cfg : Cfg) : M Outcome := do
   let aborted ← if cfg.hasRetry then pure false else checkAbortNoRetry cfg
